@@ -881,6 +881,15 @@ impl Visitor<Diagnostic> for LibraryRenderer {
         }
         self.outdent();
 
+        if !node.edge_variables.is_empty() {
+            self.indent();
+            for item in node.edge_variables.iter() {
+                self.visit_edge_var_decl(item)?;
+            }
+            self.outdent();
+            self.newline();
+        }
+
         self.indent();
         node.body.recurse_visit(self)?;
         self.outdent();
